@@ -472,7 +472,7 @@ namespace smt
         // we start with an O(n) loop..
         for (size_t u = 0; u < size(); ++u)
         {
-            if (_dists[u][from] < _dists[u][to] - dist)
+            if (!is_infinite(_dists[u][from]) && _dists[u][from] < _dists[u][to] - dist)
             { // u -> from -> to is shorter than u -> to..
                 set_dist(u, to, _dists[u][from] + dist);
                 set_pred(u, to, from);
@@ -480,7 +480,7 @@ namespace smt
                 c_updates.emplace_back(u, to);
                 c_updates.emplace_back(to, u);
             }
-            if (_dists[to][u] < _dists[from][u] - dist)
+            if (!is_infinite(_dists[to][u]) && _dists[to][u] < _dists[from][u] - dist)
             { // from -> to -> u is shorter than from -> u..
                 set_dist(from, u, _dists[to][u] + dist);
                 set_pred(from, u, _preds[to][u]);
